@@ -10,33 +10,36 @@ Open Scope Q_scope.
 (* the body of get_threshold, as regenerated from the source, returns exactly the specified closed form
    (correction factor, range clamp of the global threshold, dispatch, second correction factor on the local
    array, band [g*0.7, g*1.5] intersected with the range, low clamp then high clamp, per-object sentinel) *)
-Theorem get_threshold_closed_form : forall (mul : Q -> Q -> Q) inp lo hi,
-  run mul inp get_threshold_prog lo hi = ref_run mul inp lo hi.
+Theorem get_threshold_closed_form : forall (mul amul : Q -> Q -> Q) (cast : Q -> Q) inp lo hi,
+  run mul amul cast inp get_threshold_prog lo hi = ref_run mul amul cast inp lo hi.
 Proof. exact run_eq_ref_lemma. Qed.
 Print Assumptions get_threshold_closed_form.
 
 (* S2: whatever the product, the modifier, the raw thresholds and the correction factor, the global
    threshold returned by the regenerated get_threshold lies within the requested limits (each limit
    may be absent) *)
-Theorem global_in_range : forall (mul : Q -> Q -> Q) inp lo hi l v,
+Theorem global_in_range : forall (mul amul : Q -> Q -> Q) (cast : Q -> Q) inp lo hi l v,
   range_ok lo hi ->
-  run mul inp get_threshold_prog lo hi = Some (l, v) ->
+  run mul amul cast inp get_threshold_prog lo hi = Some (l, v) ->
   exists g, v = VNum g /\ in_range lo hi g.
 Proof. exact global_in_range_lemma. Qed.
 Print Assumptions global_in_range.
 
 (* S3: every local threshold (every pixel that does not carry the per-object sentinel) lies in the
-   range and in the band [g*0.7, g*1.5] computed with the same product — for ANY product [mul] whose
-   two band products bracket g (true of the exact product, next theorem, and of a monotone rounding
-   of it on representable g) *)
-Theorem local_in_band : forall (mul : Q -> Q -> Q) inp lo hi l g,
+   range and in the band [g*0.7, g*1.5] computed with the same product — for ANY scalar product [mul] whose
+   two band products bracket g (exact product: next theorem; binary64 product: fmul_band_bracket), any
+   array product [amul] and any monotone conversion [cast] of stored scalars to the array's dtype (identity
+   for float64 arrays; rounding to binary32 for the float32 array of per-object mode on a float32 image:
+   the limits the elements respect are then the limits ROUNDED to binary32) *)
+Theorem local_in_band : forall (mul amul : Q -> Q -> Q) (cast : Q -> Q) inp lo hi l g,
+  (forall a b, a <= b -> cast a <= cast b) ->
   lo <= hi ->
-  run mul inp get_threshold_prog (Some lo) (Some hi) = Some (l, VNum g) ->
+  run mul amul cast inp get_threshold_prog (Some lo) (Some hi) = Some (l, VNum g) ->
   mul g band_lo <= g -> g <= mul g band_hi ->
   match l with
   | VNum t => lo <= t /\ t <= hi
   | VArr ts => forall i t, nth_error ts i = Some t -> unlabelled inp i = false ->
-                           (lo <= t /\ t <= hi) /\ in_band mul g t
+                           in_range_cast cast lo hi t /\ in_band_cast mul cast g t
   | VNone => False
   end.
 Proof. exact local_in_band_lemma. Qed.
@@ -44,7 +47,7 @@ Print Assumptions local_in_band.
 
 Theorem local_in_band_exact : forall inp lo hi l g,
   0 <= lo -> lo <= hi ->
-  run Qmult inp get_threshold_prog (Some lo) (Some hi) = Some (l, VNum g) ->
+  run Qmult Qmult (fun q => q) inp get_threshold_prog (Some lo) (Some hi) = Some (l, VNum g) ->
   match l with
   | VNum t => lo <= t /\ t <= hi
   | VArr ts => forall i t, nth_error ts i = Some t -> unlabelled inp i = false ->
@@ -55,9 +58,9 @@ Proof. exact local_in_band_exact_lemma. Qed.
 Print Assumptions local_in_band_exact.
 
 (* adaptive / per-object mode without both limits raises (max(None, x)): model and code reject alike *)
-Theorem array_modifiers_need_both_limits : forall (mul : Q -> Q -> Q) md cf raw_g raw_l lab0 lo hi,
+Theorem array_modifiers_need_both_limits : forall (mul amul : Q -> Q -> Q) (cast : Q -> Q) md cf raw_g raw_l lab0 lo hi,
   md <> MGlobal -> lo = None \/ hi = None ->
-  run mul (mkIn md cf raw_g raw_l lab0) get_threshold_prog lo hi = None.
+  run mul amul cast (mkIn md cf raw_g raw_l lab0) get_threshold_prog lo hi = None.
 Proof. exact run_array_none. Qed.
 Print Assumptions array_modifiers_need_both_limits.
 
@@ -87,9 +90,10 @@ Proof. exact random_streams_seeded_lemma. Qed.
 Print Assumptions random_streams_seeded.
 
 (* soundness of the checker that is evaluated on get_threshold's actual return values *)
-Theorem check_thresholds_sound : forall (mul : Q -> Q -> Q) lo hi g band ts,
-  check_thresholds mul lo hi g band ts = true ->
-  in_range lo hi g /\ Forall (fun t => in_range lo hi t /\ (band = true -> in_band mul g t)) ts.
+Theorem check_thresholds_sound : forall (mul : Q -> Q -> Q) (cast : Q -> Q) lo hi g band ts,
+  check_thresholds mul cast lo hi g band ts = true ->
+  in_range lo hi g /\
+  Forall (fun t => in_range (cast_opt cast lo) (cast_opt cast hi) t /\ (band = true -> in_band_cast mul cast g t)) ts.
 Proof. exact check_thresholds_sound_lemma. Qed.
 Print Assumptions check_thresholds_sound.
 
@@ -140,6 +144,57 @@ Theorem otsu_bracket : forall l lo hi,
 Proof. exact otsu_bracket_lemma. Qed.
 Print Assumptions otsu_bracket.
 
-(* otsu_affine (otsu (a x + b) = a otsu x + b, a > 0) is NOT proved: it needs var (a x + b) = a^2 var x through
-   the Welford recurrences of running_variance (missing lemma: rv_aux_affine); the clause is checked on the
-   implementation only (exactly for power-of-two a and dyadic b, at 1e-9 otherwise). *)
+(* S6: the cut commutes with positive affine rescaling (integer a > 0, b on the integer-scaled dyadic data;
+   core lemma rv_aux_affine: the Welford recurrences of running_variance scale by a^2) *)
+From Centro Require Import Proofs.OtsuAffine Proofs.ThresholdRound.
+Theorem otsu_affine : forall (a b : Z), (0 < a)%Z -> forall l, filter_nan l <> [] ->
+  otsu (map (option_map (fun x => (a * x + b)%Z)) l) == inject_Z a * otsu l + inject_Z b.
+Proof. exact otsu_affine_lemma. Qed.
+Print Assumptions otsu_affine.
+
+(* ---------------------------------------------------------------- S3 in the implementation's arithmetic *)
+(* for EVERY finite binary64 g >= 0 the two rounded band products bracket g (fmul = round-to-nearest-even
+   binary64 of the exact product; band_lo, band_hi = the doubles 0.7 and 1.5) *)
+Theorem fmul_band_bracket : forall g,
+  0 <= g -> binary64 g -> fmul g band_lo <= g /\ g <= fmul g band_hi.
+Proof. exact fmul_band_bracket_lemma. Qed.
+Print Assumptions fmul_band_bracket.
+
+(* hence S3 for binary64 scalar arithmetic with no side hypothesis except that the returned global
+   threshold is a binary64 value *)
+Theorem local_in_band_binary64 : forall (amul : Q -> Q -> Q) (cast : Q -> Q) inp lo hi l g,
+  (forall a b, a <= b -> cast a <= cast b) ->
+  0 <= lo -> lo <= hi ->
+  run fmul amul cast inp get_threshold_prog (Some lo) (Some hi) = Some (l, VNum g) ->
+  binary64 g ->
+  match l with
+  | VNum t => lo <= t /\ t <= hi
+  | VArr ts => forall i t, nth_error ts i = Some t -> unlabelled inp i = false ->
+                           in_range_cast cast lo hi t /\ in_band_cast fmul cast g t
+  | VNone => False
+  end.
+Proof. exact local_in_band_binary64_lemma. Qed.
+Print Assumptions local_in_band_binary64.
+
+(* ---------------------------------------------------------------- S5 for Ridler-Calvard and MCT (partial) *)
+From Centro Require Import Model.RidlerQ Proofs.ThresholdBracket.
+(* Full statement of S5 for these two methods: min masked <= threshold <= max masked.
+   Proved (rc_iter_bracket_partial): the Ridler-Calvard fixed-point iteration as written, over Q, never
+   leaves [a, b] once its starting value is inside (every iterate is the mean of two class means).
+   Missing: the monotone log / exp transfer (no rational model) and a correspondence tying Model.RidlerQ to
+   the code; the starting value is otsu of the stretched data, covered by otsu_bracket. *)
+Theorem rc_iter_bracket_partial : forall fuel delta a b im,
+  (forall x, In x im -> a <= x /\ x <= b) ->
+  forall pre t0 t, a <= t0 /\ t0 <= b -> rc_iter fuel delta im pre t0 = Some t -> a <= t /\ t <= b.
+Proof. exact rc_iter_bracket_partial_lemma. Qed.
+Print Assumptions rc_iter_bracket_partial.
+
+(* Proved (mct_bracket_partial): the final formula min + my_bin (max - min) / (bins - 1) is inside [min, max]
+   for 0 <= my_bin <= bins - 2.  Missing lemma: 1 <= argmax(mct), i.e. my_bin >= 0 (tail sums of the
+   deviations from the mean are positive wherever 0 < n_i < n, and mct[0] is reset to 0); sqrt has no
+   rational model, so the arg-max itself is not modelled. *)
+Theorem mct_bracket_partial : forall vmin vmax bins my_bin,
+  vmin <= vmax -> (2 <= bins)%Z -> (0 <= my_bin <= bins - 2)%Z ->
+  vmin <= mct_value vmin vmax bins my_bin /\ mct_value vmin vmax bins my_bin <= vmax.
+Proof. exact mct_bracket_partial_lemma. Qed.
+Print Assumptions mct_bracket_partial.
